@@ -135,12 +135,12 @@ def check(ctx):
             jobs.append((wrapped(exe, 2), ['--minm', '3', '--maxm', '3', '--minc', '1', '--maxc', '2', '--short', str(sh), '--skip-all-local'] + dl + out, 'np2-short%d' % sh, 600))
         run_parallel(ctx, jobs, 3)
     else:
-        dl = ['--deadline', '800']
-        jobs.append((exe, ['--minm', '2', '--maxm', '4', '--minc', '1', '--maxc', '3'] + dl + out, 'np1', 1100))
+        dl = ['--deadline', '600']
+        jobs.append((exe, ['--minm', '2', '--maxm', '4', '--minc', '1', '--maxc', '3'] + dl + out, 'np1', 1500))
         for sh in (1, 0):
             for k in range(2):
-                jobs.append((wrapped(exe, 2), ['--minm', '2', '--maxm', '4', '--minc', '1', '--maxc', '3', '--short', str(sh), '--shard', '%d/2' % k] + dl + out, 'np2-short%d-%d' % (sh, k), 1100))
-            jobs.append((wrapped(exe, 3), ['--minm', '3', '--maxm', '3', '--minc', '1', '--maxc', '2', '--short', str(sh), '--skip-all-local'] + dl + out, 'np3-short%d' % sh, 1100))
+                jobs.append((wrapped(exe, 2), ['--minm', '2', '--maxm', '4', '--minc', '1', '--maxc', '3', '--short', str(sh), '--shard', '%d/2' % k] + dl + out, 'np2-short%d-%d' % (sh, k), 1500))
+            jobs.append((wrapped(exe, 3), ['--minm', '3', '--maxm', '3', '--minc', '1', '--maxc', '2', '--short', str(sh), '--skip-all-local'] + dl + out, 'np3-short%d' % sh, 1500))
         run_parallel(ctx, jobs, 4)
     return ctx.finish(RULE, ["message timing between MPI ranks is not controlled (real MPI)",
                              "the type names are bound at run time to FULL/LOWER/UPPER (diagonal included) int tiles of m x m, m in {2,3,4}; arenas are given a filling allocator and no cache so that untouched elements are recognisable",
